@@ -70,7 +70,7 @@ def C11.nameErr : JVal → Exc
 /-- the validation-class errors: what `validate` / `_get_watcher` / `synchronized` / `add_watcher`
     raise to refuse a request — MessageError, ConflictError, the AttributeError of a non-string
     name, the ArgumentError of `signal`, AlreadyExist.  (Not in the class: `ValueError`, raised by
-    `Watcher.set_opt` while `set` executes — finding F4 —, NoSuchProcess / KeyError raised while
+    `Watcher.set_opt` while `set` executes — finding F4 —, NoSuchProcess / AccessDenied / KeyError raised while
     `signal` executes, OSError.) -/
 def Exc.isRefusal : Exc → Bool
   | .message => true
@@ -2514,6 +2514,10 @@ theorem C11.Post.yield {b : Option Exc} (h : noRef b = true) : Post QStep (pure 
 theorem C11.Post.yield_key : Post QStep (pure (ForInStep.yield (some (Exc.other "KeyError")))) := Post.yield rfl
 theorem C11.Post.yield_nsp : Post QStep (pure (ForInStep.yield (some Exc.noSuchProcess))) := Post.yield rfl
 theorem C11.Post.yield_unm : Post QStep (pure (ForInStep.yield (some (Exc.other "unmodelled")))) := Post.yield rfl
+/-- the exception of a signal that failed — `NoSuchProcess`, or `AccessDenied` when the daemon is not permitted to
+    signal the process — is not a validation-class error -/
+theorem C11.noRef_exc (r : SigRes) : noRef r.exc = true := by cases r <;> rfl
+theorem C11.Post.yield_exc (r : SigRes) : Post QStep (pure (ForInStep.yield r.exc)) := Post.yield (noRef_exc r)
 
 theorem C11.Post.res_ok (x : ExecRes) : Post QRes (pure (Except.ok x)) := fun _ e h => by cases h
 theorem C11.Post.res_err {e : Exc} (h : noRef (some e) = true) : Post QRes (pure (Except.error e)) := by
@@ -2585,7 +2589,8 @@ theorem C11.execSignal_errRef (props : JVal) (s : State) : ErrRef (execSignal pr
   · exact errRef_bind_read h (fun _ _ _ => rfl)
   · refine errRef_bind_read h ?_
     apply errRef_of_post
-    aesop (add safe 0 apply [Post.yield_key, Post.yield_nsp, Post.yield_unm, Post.res_ok],
+    have hx := noRef_exc
+    aesop (add safe 0 apply [Post.yield_key, Post.yield_nsp, Post.yield_unm, Post.yield_exc, Post.res_ok, hx],
                safe 1 apply [Post.yield, Post.res_err, Post.bind_forIn, Post.bind_forIn_init],
                safe 2 apply [Post.bind_any, Post.ite_any])
       (config := { terminal := true, useDefaultSimpSet := false, useSimpAll := false, maxRuleApplications := 3000 })
